@@ -126,20 +126,45 @@ struct PExc {
   int tag;
 };
 
-using Res = yaclib::Result<int, PErr>;
+// the value type of every pipeline: an int whose moved-from state is visible (`dead`), so that a value moved out from under
+// a holder that may still read it shows up in the output
+struct Val {
+  static constexpr int kDead = -777777;
+  int v = 0;
+  Val() noexcept = default;
+  Val(int x) noexcept : v{x} {  // NOLINT
+  }
+  Val(const Val&) noexcept = default;
+  Val& operator=(const Val&) noexcept = default;
+  Val(Val&& o) noexcept : v{o.v} {
+    o.v = kDead;
+  }
+  Val& operator=(Val&& o) noexcept {
+    v = o.v;
+    if (this != &o) {
+      o.v = kDead;
+    }
+    return *this;
+  }
+};
+
+using Res = yaclib::Result<Val, PErr>;
 using ResV = yaclib::Result<void, PErr>;
-using Fut = yaclib::Future<int, PErr>;
-using FutOn = yaclib::FutureOn<int, PErr>;
-using Tsk = yaclib::Task<int, PErr>;
-using Shr = yaclib::SharedFuture<int, PErr>;
-using Prom = yaclib::Promise<int, PErr>;
-using SProm = yaclib::SharedPromise<int, PErr>;
+using Fut = yaclib::Future<Val, PErr>;
+using FutOn = yaclib::FutureOn<Val, PErr>;
+using Tsk = yaclib::Task<Val, PErr>;
+using Shr = yaclib::SharedFuture<Val, PErr>;
+using Prom = yaclib::Promise<Val, PErr>;
+using SProm = yaclib::SharedPromise<Val, PErr>;
 
 struct RVal {
   char k = 'v';  // v e x
   long n = 0;
 };
 static std::string Show(const RVal& r) {
+  if (r.k == 'd') {
+    return "dead";  // a moved-from value was read
+  }
   return std::string(1, r.k) + std::to_string(r.n);
 }
 static RVal ExcToR(const std::exception_ptr& p) {
@@ -158,7 +183,7 @@ static RVal ToR(const yaclib::Result<V, PErr>& r) {
       if constexpr (std::is_void_v<V>) {
         return {'v', 0};
       } else {
-        return {'v', r.Value()};
+        return ToR(r.Value());
       }
     case yaclib::ResultState::Error:
       return {'e', r.Error().code};
@@ -168,7 +193,13 @@ static RVal ToR(const yaclib::Result<V, PErr>& r) {
       return {'x', 777777};  // Empty
   }
 }
-static RVal ToR(int v) {
+static RVal ToR(const Val& v) {
+  if (v.v == Val::kDead) {
+    return {'d', 0};
+  }
+  return {'v', v.v};
+}
+[[maybe_unused]] static RVal ToR(int v) {
   return {'v', v};
 }
 static RVal ToR(const PErr& e) {
@@ -180,7 +211,7 @@ static RVal ToR(const std::exception_ptr& p) {
 static Res MakeRes(const RVal& r) {
   switch (r.k) {
     case 'v':
-      return Res{static_cast<int>(r.n)};
+      return Res{Val{static_cast<int>(r.n)}};
     case 'e':
       return Res{PErr{static_cast<int>(r.n)}};
     default:
@@ -212,6 +243,7 @@ struct FulD {
   RVal r;
 };
 struct SrcD {
+  int h = 0;  // shared_handle: which kept SharedFuture
   std::string kind;  // ready contract contract_on run async_contract task_ready schedule lazy_contract shared_ready shared_contract
   RVal r;
   ExRef ex;
@@ -285,6 +317,15 @@ struct World {
   std::map<int, Prom> proms;
   std::map<int, SProm> sproms;
   std::map<int, FulD> fuls;
+  // SharedFuture handles the client keeps for the whole program (`shared s<j> …`) and observes again (`obs s<j>`)
+  struct Kept {
+    std::vector<Shr> handles;
+    int p = 0;
+    bool set = false;
+  };
+  std::map<int, Kept> kept;
+  std::vector<std::pair<int, Shr>> stash;  // copies consumed by a Then on a not yet ready kept handle: held until its promise is used
+  long virt_news = 0;                      // copies of kept handles handed to the pipeline (the model counts each as one source core)
   std::vector<std::string> asserts;
   long live_tokens = 0;
   bool bad = false;
@@ -414,8 +455,8 @@ static Ret Body(const StepD* d, const RVal& in) {
   }
   if constexpr (std::is_void_v<Ret>) {
     return;
-  } else if constexpr (std::is_same_v<Ret, int>) {
-    return static_cast<int>(in.k == 'v' ? in.n + b.k : b.k);
+  } else if constexpr (std::is_same_v<Ret, Val>) {
+    return Val{static_cast<int>(in.k == 'v' ? in.n + b.k : b.k)};
   } else if constexpr (std::is_same_v<Ret, Res>) {
     return MakeRes(b.r);
   } else {
@@ -457,23 +498,23 @@ struct PromFn {
   }
 };
 
-static_assert(!yaclib::is_invocable_v<Fn<int, int>, Res> && !yaclib::is_invocable_v<Fn<int, int>, PErr> &&
-              !yaclib::is_invocable_v<Fn<int, int>, std::exception_ptr>);
-static_assert(!yaclib::is_invocable_v<Fn<PErr, int>, Res> && !yaclib::is_invocable_v<Fn<PErr, int>, int> &&
-              !yaclib::is_invocable_v<Fn<PErr, int>, std::exception_ptr>);
-static_assert(!yaclib::is_invocable_v<Fn<std::exception_ptr, int>, Res> &&
-              !yaclib::is_invocable_v<Fn<std::exception_ptr, int>, int> &&
-              !yaclib::is_invocable_v<Fn<std::exception_ptr, int>, PErr>);
-static_assert(yaclib::is_invocable_v<Fn<Res, int>, Res> && yaclib::is_invocable_v<Fn<Res, int>, int> &&
-              yaclib::is_invocable_v<Fn<Res, int>, PErr> && yaclib::is_invocable_v<Fn<Res, int>, std::exception_ptr>);
+static_assert(!yaclib::is_invocable_v<Fn<Val, Val>, Res> && !yaclib::is_invocable_v<Fn<Val, Val>, PErr> &&
+              !yaclib::is_invocable_v<Fn<Val, Val>, std::exception_ptr>);
+static_assert(!yaclib::is_invocable_v<Fn<PErr, Val>, Res> && !yaclib::is_invocable_v<Fn<PErr, Val>, Val> &&
+              !yaclib::is_invocable_v<Fn<PErr, Val>, std::exception_ptr>);
+static_assert(!yaclib::is_invocable_v<Fn<std::exception_ptr, Val>, Res> &&
+              !yaclib::is_invocable_v<Fn<std::exception_ptr, Val>, Val> &&
+              !yaclib::is_invocable_v<Fn<std::exception_ptr, Val>, PErr>);
+static_assert(yaclib::is_invocable_v<Fn<Res, Val>, Res> && yaclib::is_invocable_v<Fn<Res, Val>, Val> &&
+              yaclib::is_invocable_v<Fn<Res, Val>, PErr> && yaclib::is_invocable_v<Fn<Res, Val>, std::exception_ptr>);
 
 // static kind of the handle a program produces: F Future, O FutureOn, T Task, S SharedFuture, N nothing, B ill-typed
 static char KindOfStep(char k, const StepD& s) {
   switch (s.mode) {
     case Md::Inline:
-      return (k == 'F' || k == 'O' || k == 'T') ? k : 'B';
+      return (k == 'F' || k == 'O' || k == 'T') ? k : (k == 'S' ? 'F' : 'B');
     case Md::On:
-      return (k == 'F' || k == 'O') ? 'O' : (k == 'T' ? 'T' : 'B');
+      return (k == 'F' || k == 'O' || k == 'S') ? 'O' : (k == 'T' ? 'T' : 'B');
     case Md::Inherit:
       return (k == 'O' || k == 'T') ? k : 'B';
     case Md::DetachInline:
@@ -497,7 +538,7 @@ static char KindOfSrc(const SrcD& s) {
   if (s.kind == "task_ready" || s.kind == "schedule" || s.kind == "lazy_contract") {
     return 'T';
   }
-  if (s.kind == "shared_ready" || s.kind == "shared_contract") {
+  if (s.kind == "shared_ready" || s.kind == "shared_contract" || s.kind == "shared_handle") {
     return 'S';
   }
   return 'B';
@@ -552,11 +593,41 @@ static Handle AttachFn(H&& h, const StepD& s, FnT&& fn) {
   W->bad = true;
   return Handle{};
 }
+template <typename FnT>
+static Handle AttachFn(Shr&& h, const StepD& s, FnT&& fn) {
+  // a continuation on a COPY of a kept SharedFuture; a copy that is not ready yet stays alive until its promise is used
+  // (the model releases the source when its first consumer completes)
+  const bool ready = h.Ready();
+  Handle out;
+  {
+    cnt::On on;
+    switch (s.mode) {
+      case Md::Inline:
+        out = Handle{h.ThenInline(std::move(fn))};
+        break;
+      case Md::On:
+        out = Handle{h.Then(Exec(s.ex), std::move(fn))};
+        break;
+      default:
+        W->bad = true;
+        return Handle{};
+    }
+  }
+  if (!ready) {
+    for (auto& [j, k] : W->kept) {
+      if (k.handles[0].GetCore().Get() == h.GetCore().Get()) {
+        W->stash.emplace_back(k.p, std::move(h));
+        break;
+      }
+    }
+  }
+  return out;
+}
 template <typename H, typename FnT>
 static Handle DetachFn(H&& h, const StepD& s, FnT&& fn) {
   using HT = std::decay_t<H>;
   cnt::On on;
-  if constexpr (!std::is_same_v<HT, Tsk>) {
+  if constexpr (std::is_same_v<HT, Fut> || std::is_same_v<HT, FutOn>) {
     switch (s.mode) {
       case Md::DetachInline:
         std::move(h).DetachInline(std::move(fn));
@@ -582,7 +653,7 @@ template <typename H, typename Arg>
 static Handle AttachArg(H&& h, const StepD& s) {
   switch (RetClass(s)) {
     case 'i':
-      return AttachFn(std::move(h), s, Fn<Arg, int>{&s, {}});
+      return AttachFn(std::move(h), s, Fn<Arg, Val>{&s, {}});
     case 'r':
       return AttachFn(std::move(h), s, Fn<Arg, Res>{&s, {}});
     case 'F':
@@ -606,7 +677,7 @@ static Handle AttachH(H&& h, const StepD& s) {
     case 'R':
       return AttachArg<H, Res>(std::move(h), s);
     case 'V':
-      return AttachArg<H, int>(std::move(h), s);
+      return AttachArg<H, Val>(std::move(h), s);
     case 'E':
       return AttachArg<H, PErr>(std::move(h), s);
     case 'X':
@@ -625,6 +696,11 @@ static Handle Attach(Handle h, const StepD& s) {
   }
   if (auto* t = std::get_if<Tsk>(&h)) {
     return AttachH(std::move(*t), s);
+  }
+  if (auto* sh = std::get_if<Shr>(&h)) {
+    if (s.mode == Md::Inline || s.mode == Md::On) {
+      return AttachH(std::move(*sh), s);
+    }
   }
   W->bad = true;
   return Handle{};
@@ -650,7 +726,7 @@ static Handle HeadRet(const SrcD& src) {
   const StepD& s = src.head;
   switch (RetClass(s)) {
     case 'i':
-      return HeadFn<Lazy>(src, Mk<int>::Make(&s));
+      return HeadFn<Lazy>(src, Mk<Val>::Make(&s));
     case 'r':
       return HeadFn<Lazy>(src, Mk<Res>::Make(&s));
     case 'F':
@@ -698,15 +774,15 @@ static Handle BuildSrc(const SrcD& s) {
   const std::string& k = s.kind;
   if (k == "ready") {
     cnt::On on;
-    return Handle{yaclib::MakeFuture<int, PErr>(MakeRes(s.r))};
+    return Handle{yaclib::MakeFuture<Val, PErr>(MakeRes(s.r))};
   }
   if (k == "task_ready") {
     cnt::On on;
-    return Handle{yaclib::MakeTask<int, PErr>(MakeRes(s.r))};
+    return Handle{yaclib::MakeTask<Val, PErr>(MakeRes(s.r))};
   }
   if (k == "contract") {
     cnt::On on;
-    auto [f, p] = yaclib::MakeContract<int, PErr>();
+    auto [f, p] = yaclib::MakeContract<Val, PErr>();
     cnt::Off off;
     W->proms.insert_or_assign(s.p, std::move(p));
     W->fuls[s.p] = s.ful;
@@ -718,15 +794,24 @@ static Handle BuildSrc(const SrcD& s) {
       return Handle{};
     }
     cnt::On on;
-    auto [f, p] = yaclib::MakeContractOn<int, PErr>(Exec(s.ex));
+    auto [f, p] = yaclib::MakeContractOn<Val, PErr>(Exec(s.ex));
     cnt::Off off;
     W->proms.insert_or_assign(s.p, std::move(p));
     W->fuls[s.p] = s.ful;
     return Handle{std::move(f)};
   }
+  if (k == "shared_handle") {
+    auto it = W->kept.find(s.h);
+    if (it == W->kept.end()) {
+      W->bad = true;
+      return Handle{};
+    }
+    ++W->virt_news;
+    return Handle{Shr{it->second.handles[0]}};
+  }
   if (k == "shared_ready" || k == "shared_contract") {
     cnt::On on;
-    auto [f, p] = yaclib::MakeSharedContract<int, PErr>();
+    auto [f, p] = yaclib::MakeSharedContract<Val, PErr>();
     if (k == "shared_ready") {
       std::move(p).Set(MakeRes(s.r));
     } else {
@@ -741,14 +826,14 @@ static Handle BuildSrc(const SrcD& s) {
     cnt::On on;
     if (k == "async_contract") {
       if (s.ex.kind == 'i') {
-        return Handle{yaclib::AsyncContract<int, PErr>(PromFn{s.p, false, {}})};
+        return Handle{yaclib::AsyncContract<Val, PErr>(PromFn{s.p, false, {}})};
       }
-      return Handle{yaclib::AsyncContract<int, PErr>(Exec(s.ex), PromFn{s.p, false, {}})};
+      return Handle{yaclib::AsyncContract<Val, PErr>(Exec(s.ex), PromFn{s.p, false, {}})};
     }
     if (s.ex.kind == 'i') {
-      return Handle{yaclib::LazyContract<int, PErr>(PromFn{s.p, false, {}})};
+      return Handle{yaclib::LazyContract<Val, PErr>(PromFn{s.p, false, {}})};
     }
-    return Handle{yaclib::LazyContract<int, PErr>(Exec(s.ex), PromFn{s.p, false, {}})};
+    return Handle{yaclib::LazyContract<Val, PErr>(Exec(s.ex), PromFn{s.p, false, {}})};
   }
   if (k == "run") {
     return Head<false>(s);
@@ -887,6 +972,14 @@ static bool ParseSrc(const std::vector<std::string>& t, size_t i, SrcD& s) {
   if (s.kind == "contract" || s.kind == "shared_contract") {
     return n == 2 && ParseP(t[i + 1], s.p) && ParseFul(t[i + 2], s.ful);
   }
+  if (s.kind == "shared_handle") {
+    long h;
+    if (n != 1 || t[i + 1].size() < 2 || t[i + 1][0] != 's' || !ParseLong(t[i + 1].substr(1), h) || !W->kept.count(static_cast<int>(h))) {
+      return false;
+    }
+    s.h = static_cast<int>(h);
+    return true;
+  }
   if (s.kind == "contract_on" || s.kind == "async_contract" || s.kind == "lazy_contract") {
     return n == 3 && ParseEx(t[i + 1], s.ex) && ParseP(t[i + 2], s.p) && ParseFul(t[i + 3], s.ful);
   }
@@ -906,6 +999,7 @@ struct Interp {
   bool started = false;  // a src line was seen
   std::optional<RVal> got;
   long last_news = 0;
+  long last_virt = 0;
   ProgD top;  // keeps the StepD of the top-level pipeline alive (functors point into it)
   std::vector<std::unique_ptr<StepD>> top_steps;
 
@@ -941,15 +1035,23 @@ struct Interp {
     } else if (auto* f = std::get_if<FutOn>(&cur)) {
       const Res* r = std::as_const(*f).Get();
       s += r ? "ready:" + Show(ToR(*r)) : "pending";
+    } else if (auto* sh = std::get_if<Shr>(&cur)) {
+      s += sh->Ready() ? "ready:" + Show(ToR(std::as_const(*sh).Get())) : "pending";
     } else {
       s += "gone";
     }
     if (got) {
       s += " got:" + Show(*got);
     }
-    s += " al=" + std::to_string(cnt::news - last_news) + " lc=" + std::to_string(cnt::live) +
+    // references to kept SharedFutures held on behalf of the pipeline count like the source cores they stand for
+    long virt_live = 0;
+    for (auto& [j, k] : W->kept) {
+      virt_live += static_cast<long>(k.handles[0].GetCore()->GetRef()) - static_cast<long>(k.handles.size()) - (k.set ? 0 : 3);
+    }
+    s += " al=" + std::to_string(cnt::news - last_news + W->virt_news - last_virt) + " lc=" + std::to_string(cnt::live + virt_live) +
          " lf=" + std::to_string(W->live_tokens);
     last_news = cnt::news;
+    last_virt = W->virt_news;
     for (const auto& a : W->asserts) {
       s += " ASSERT(" + a + ")";
     }
@@ -971,7 +1073,7 @@ struct Interp {
         Prom dead = std::move(pr);
         (void)dead;
       } else if (ful.r.k == 'v') {
-        std::move(pr).Set(static_cast<int>(ful.r.n));
+        std::move(pr).Set(Val{static_cast<int>(ful.r.n)});
       } else if (ful.r.k == 'e') {
         std::move(pr).Set(PErr{static_cast<int>(ful.r.n)});
       } else {
@@ -988,6 +1090,16 @@ struct Interp {
         (void)dead;
       } else {
         std::move(pr).Set(MakeRes(ful.r));
+      }
+      for (auto& [j, k] : W->kept) {
+        if (k.p == p) {
+          k.set = true;
+        }
+      }
+      for (size_t i = W->stash.size(); i-- > 0;) {
+        if (W->stash[i].first == p) {
+          W->stash.erase(W->stash.begin() + static_cast<long>(i));
+        }
       }
     }
   }
@@ -1010,6 +1122,36 @@ struct Interp {
       x.manual = t[2] == "manual";
       if (t.size() == 4 && StartsWith(t[3], "limit=")) {
         ParseLong(t[3].substr(6), x.limit);
+      }
+      return "ok";
+    }
+    if (c == "shared") {
+      // shared s<j> p<k> <ful> ready|later copies=<1|2> : a SharedFuture the client keeps (not counted: it is the client's object)
+      long h;
+      int pp;
+      FulD ful;
+      if (t.size() != 6 || t[1].size() < 2 || t[1][0] != 's' || !ParseLong(t[1].substr(1), h) || !ParseP(t[2], pp) ||
+          !ParseFul(t[3], ful) || (t[4] != "ready" && t[4] != "later") || (t[5] != "copies=1" && t[5] != "copies=2")) {
+        return "bad";
+      }
+      auto [f, pr] = yaclib::MakeSharedContract<Val, PErr>();
+      auto& k = W->kept[static_cast<int>(h)];
+      k.p = pp;
+      k.handles.push_back(f);
+      if (t[5] == "copies=2") {
+        k.handles.push_back(f);
+      }
+      W->fuls[pp] = ful;
+      if (t[4] == "ready") {
+        if (ful.drop) {
+          SProm dead = std::move(pr);
+          (void)dead;
+        } else {
+          std::move(pr).Set(MakeRes(ful.r));
+        }
+        k.set = true;
+      } else {
+        W->sproms.insert_or_assign(pp, std::move(pr));
       }
       return "ok";
     }
@@ -1041,6 +1183,10 @@ struct Interp {
     if (W->bad) {
       return "bad";
     }
+    if (!started && (c == "set" || c == "flush" || c == "call" || c == "drain")) {
+      return State();  // nothing is built yet: the client has nothing to deliver to
+    }
+    std::string obs;
     if (c == "src") {
       if (started || !ParseSrc(t, 1, top.src)) {
         W->bad = true;
@@ -1100,8 +1246,15 @@ struct Interp {
         cnt::On on;
         cur = Handle{};
       }
+    } else if (c == "obs" && t.size() == 2) {
+      long h;
+      if (t[1].size() < 2 || t[1][0] != 's' || !ParseLong(t[1].substr(1), h) || !W->kept.count(static_cast<int>(h))) {
+        return "bad";
+      }
+      const Shr& sh = W->kept[static_cast<int>(h)].handles.back();
+      obs = " obs=" + (sh.Ready() ? Show(ToR(sh.Get())) : std::string("pending"));
     } else if (c == "dropfuture") {
-      if (std::holds_alternative<Fut>(cur) || std::holds_alternative<FutOn>(cur)) {
+      if (std::holds_alternative<Fut>(cur) || std::holds_alternative<FutOn>(cur) || std::holds_alternative<Shr>(cur)) {
         cnt::On on;
         cur = Handle{};
       }
@@ -1113,7 +1266,10 @@ struct Interp {
       } else if (auto* f = std::get_if<FutOn>(&cur); f && f->Ready()) {
         got = ToR(std::move(*f).Get());
         cur = Handle{};
-      } else if (std::holds_alternative<Fut>(cur) || std::holds_alternative<FutOn>(cur)) {
+      } else if (auto* sh = std::get_if<Shr>(&cur); sh && sh->Ready()) {
+        got = ToR(std::as_const(*sh).Get());
+        cur = Handle{};
+      } else if (std::holds_alternative<Fut>(cur) || std::holds_alternative<FutOn>(cur) || std::holds_alternative<Shr>(cur)) {
         cur = Handle{};  // Get() would block for ever in a single thread: the future is given up
       }
     } else if (c == "flush") {
@@ -1147,7 +1303,7 @@ struct Interp {
     if (W->bad) {
       return "bad";
     }
-    return State();
+    return State() + obs;
   }
 };
 
@@ -1185,7 +1341,7 @@ static void MeasureComb(const char* name, int n, MakeComb&& make) {
   futs.reserve(static_cast<size_t>(n));
   proms.reserve(static_cast<size_t>(n));
   for (int i = 0; i < n; ++i) {
-    auto [f, p] = yaclib::MakeContract<int, PErr>();
+    auto [f, p] = yaclib::MakeContract<Val, PErr>();
     futs.push_back(std::move(f));
     proms.push_back(std::move(p));
   }
@@ -1196,7 +1352,7 @@ static void MeasureComb(const char* name, int n, MakeComb&& make) {
   const long a1 = cnt::news;
   cnt::on = true;
   for (int i = 0; i < n; ++i) {
-    std::move(proms[static_cast<size_t>(i)]).Set(i);
+    std::move(proms[static_cast<size_t>(i)]).Set(Val{i});
   }
   cnt::on = false;
   const long a2 = cnt::news;
@@ -1213,7 +1369,7 @@ static void MeasureWait(int n) {
   futs.reserve(static_cast<size_t>(n));
   proms.reserve(static_cast<size_t>(n));
   for (int i = 0; i < n; ++i) {
-    auto [f, p] = yaclib::MakeContract<int, PErr>();
+    auto [f, p] = yaclib::MakeContract<Val, PErr>();
     futs.push_back(std::move(f));
     proms.push_back(std::move(p));
   }
@@ -1224,7 +1380,7 @@ static void MeasureWait(int n) {
   cnt::on = false;
   const long a1 = cnt::news;
   for (int i = 0; i < n; ++i) {
-    std::move(proms[static_cast<size_t>(i)]).Set(i);
+    std::move(proms[static_cast<size_t>(i)]).Set(Val{i});
   }
   const long a2 = cnt::news;
   cnt::on = true;
@@ -1232,7 +1388,7 @@ static void MeasureWait(int n) {
   const bool r1 = yaclib::WaitFor(std::chrono::nanoseconds{0}, futs.begin(), futs.end());
   int sum = 0;
   for (auto& f : futs) {
-    sum += std::move(f).Get().Ok();
+    sum += std::move(f).Get().Ok().v;
   }
   cnt::on = false;
   const long a3 = cnt::news;
@@ -1261,7 +1417,7 @@ static int CombMain() {
   }
   {  // static (variadic) forms
     auto mk = [] {
-      return yaclib::MakeContract<int, PErr>();
+      return yaclib::MakeContract<Val, PErr>();
     };
     auto [f1, p1] = mk();
     auto [f2, p2] = mk();
@@ -1272,9 +1428,9 @@ static int CombMain() {
     cnt::on = false;
     const long a1 = cnt::news;
     cnt::on = true;
-    std::move(p1).Set(1);
-    std::move(p2).Set(2);
-    std::move(p3).Set(3);
+    std::move(p1).Set(Val{1});
+    std::move(p2).Set(Val{2});
+    std::move(p3).Set(Val{3});
     cnt::on = false;
     std::printf("comb all_static n=3 call=%ld complete=%ld ready=%d\n", a1 - a0, cnt::news - a1, all.Ready() ? 1 : 0);
   }
